@@ -1,5 +1,7 @@
 from dataclasses import dataclass
 
+from scapy.packet import Padding
+
 from pyp0f.exceptions import PacketError
 from pyp0f.net.layers.base import Layer
 from pyp0f.net.layers.ip import IPV4_HEADER_LENGTH, IPV6_HEADER_LENGTH
@@ -42,6 +44,13 @@ class TCP(Layer):
         tcp_type = flags & (TCPFlag.SYN | TCPFlag.ACK | TCPFlag.FIN | TCPFlag.RST)
         options = TCPOptions.parse(options_buffer, is_syn=(tcp_type == TCPFlag.SYN))
 
+        # Bytes past the length stated in the IP header (e.g. Ethernet frame
+        # padding) are not TCP payload.
+        payload = bytes(tcp.payload)
+        padding = tcp.payload.getlayer(Padding)
+        if padding is not None:
+            payload = payload[: len(payload) - len(bytes(padding))]
+
         quirks = Quirk(0)
 
         if tcp.flags.E or tcp.flags.C or tcp.flags.N:
@@ -71,7 +80,7 @@ class TCP(Layer):
             window=tcp.window,
             seq=tcp.seq,
             options=options,
-            payload=bytes(tcp.payload),
+            payload=payload,
             header_length=header_length,
             quirks=quirks,
         )
